@@ -49,6 +49,44 @@ def murmur3_x86_32(data: bytes, seed: int) -> int:
     return h1
 
 
+def murmur3_collision_partner(data: bytes, seed: int, block: int, new_word: int):
+    """a different byte string of the same length with the same MurmurHash3 value under `seed`: block `block` (a full
+    4-byte block followed by another full block) is replaced by new_word and the next block compensates - the per-block
+    mixing k -> rotl(k*c1, 15)*c2 is a bijection on 32-bit words.  None when data has fewer than two full blocks."""
+    c1, c2 = 0xcc9e2d51, 0x1b873593
+    nblocks = len(data) // 4
+    if nblocks < 2:
+        return None
+    i = block % (nblocks - 1)
+
+    def mix(k):
+        return (_rotl32((k * c1) & M32, 15) * c2) & M32
+
+    def unmix(m):
+        k = (m * pow(c2, -1, 1 << 32)) & M32
+        k = _rotl32(k, 17)                      # inverse of rotl 15
+        return (k * pow(c1, -1, 1 << 32)) & M32
+
+    def step(h, k):
+        h ^= mix(k)
+        h = _rotl32(h, 13)
+        return (h * 5 + 0xe6546b64) & M32
+    h = seed & M32
+    for j in range(i):
+        h = step(h, int.from_bytes(data[4 * j:4 * j + 4], "little"))
+    k_i = int.from_bytes(data[4 * i:4 * i + 4], "little")
+    k_n = int.from_bytes(data[4 * i + 4:4 * i + 8], "little")
+    new_word &= M32
+    if new_word == k_i:
+        new_word ^= 1
+    h_old, h_new = step(h, k_i), step(h, new_word)
+    # want  h_new ^ mix(k_n') == h_old ^ mix(k_n)
+    k_n2 = unmix(mix(k_n) ^ h_old ^ h_new)
+    out = data[:4 * i] + new_word.to_bytes(4, "little") + k_n2.to_bytes(4, "little") + data[4 * i + 8:]
+    assert out != data and murmur3_x86_32(out, seed) == murmur3_x86_32(data, seed)
+    return out
+
+
 def bip37_bit_indexes(item: bytes, size_bytes: int, nfuncs: int, tweak: int):
     """CBloomFilter::Hash for nHashNum in 0..nfuncs-1: MurmurHash3(nHashNum * 0xFBA4C795 + nTweak, item) % (size*8);
     the seed arithmetic is unsigned 32-bit"""
